@@ -66,17 +66,15 @@ theorem load_write (e : EngineInfo) (he : EngineOK e) (a : Ante) (hok : AnteOK e
 /-- how the minimal writing looks: `p or q and r` has no parentheses and means `p or (q and r)`;
     `(p or q) and r` needs them; `p and q and r` / `p or q or r` group to the left, `p and (q and r)` needs them -/
 theorem minimal_writing_shapes (p q r : Ante) :
-    let w (a : Ante) := write a
     write (.disj p (.conj q r)) = ((p.toExpr eAnd eOr).prMin 0 100).map Tok.str ++ "or" ::
         (((q.toExpr eAnd eOr).prMin 101 120).map Tok.str ++ "and" :: ((r.toExpr eAnd eOr).prMin 121 0).map Tok.str) ∧
     write (.conj (.conj p q) r) = (((p.toExpr eAnd eOr).prMin 0 120).map Tok.str ++ "and" ::
         ((q.toExpr eAnd eOr).prMin 121 120).map Tok.str) ++ "and" :: ((r.toExpr eAnd eOr).prMin 121 0).map Tok.str ∧
     write (.conj (.disj p q) r) = "(" :: (((p.toExpr eAnd eOr).prMin 0 100).map Tok.str ++ "or" ::
-        ((q.toExpr eAnd eOr).prMin 101 0).map Tok.str) ++ ")" :: "and" :: ((r.toExpr eAnd eOr).prMin 121 0).map Tok.str ∧
-    w p = w p := by
+        ((q.toExpr eAnd eOr).prMin 101 0).map Tok.str) ++ ")" :: "and" :: ((r.toExpr eAnd eOr).prMin 121 0).map Tok.str := by
   have hA : eAnd = ⟨"and", true, 2, 60, -1⟩ := by decide +kernel
   have hO : eOr = ⟨"or", true, 2, 50, -1⟩ := by decide +kernel
-  refine ⟨?_, ?_, ?_, rfl⟩ <;>
+  refine ⟨?_, ?_, ?_⟩ <;>
     simp [write, Ante.toExpr, Expr.prMin, hA, hO, Elem.L, Elem.R, Tok.str, List.map_append]
 
 /-- a proposition is written as its words -/
